@@ -19,7 +19,7 @@ import (
 //	anything else         ""
 func CalleeFull(c *ssa.CallCommon) string {
 	if c.IsInvoke() {
-		if f := devirtInvoke(c); f != nil {
+		if f := StaticCallee(c); f != nil {
 			return FuncFull(f)
 		}
 		return "iface:(" + types.TypeString(c.Value.Type(), nil) + ")." + c.Method.Name()
@@ -35,6 +35,18 @@ func CalleeFull(c *ssa.CallCommon) string {
 
 // StaticCallee resolves the function a call statically invokes, looking through bound-method closures.
 func StaticCallee(c *ssa.CallCommon) *ssa.Function {
+	f := staticCalleeRaw(c)
+	for i := 0; i < 3 && f != nil; i++ {
+		fi := forwardOf(f)
+		if fi == nil {
+			break
+		}
+		f = fi.inner
+	}
+	return f
+}
+
+func staticCalleeRaw(c *ssa.CallCommon) *ssa.Function {
 	if c.IsInvoke() {
 		return devirtInvoke(c)
 	}
@@ -98,6 +110,27 @@ func IsCallTo(in ssa.Instruction, names ...string) bool {
 // CallArgs returns the arguments of the call including the receiver as args[0] for both static method
 // calls and interface invokes.
 func CallArgs(c *ssa.CallCommon) []ssa.Value {
+	args := callArgsRaw(c)
+	f := staticCalleeRaw(c)
+	for i := 0; i < 3 && f != nil; i++ {
+		fi := forwardOf(f)
+		if fi == nil {
+			break
+		}
+		mapped := make([]ssa.Value, len(fi.argParam))
+		for j, pi := range fi.argParam {
+			if pi >= 0 && pi < len(args) {
+				mapped[j] = args[pi]
+			} else {
+				mapped[j] = fi.konst[j]
+			}
+		}
+		args, f = mapped, fi.inner
+	}
+	return args
+}
+
+func callArgsRaw(c *ssa.CallCommon) []ssa.Value {
 	if c.IsInvoke() {
 		return append([]ssa.Value{c.Value}, c.Args...)
 	}
@@ -263,6 +296,9 @@ func (g *CallGraph) DynCallers(fn *ssa.Function) []CallSite {
 func BuildCallGraph(p *Prog) *CallGraph {
 	g := &CallGraph{Callers: map[*ssa.Function][]CallSite{}, Callees: map[*ssa.Function][]*ssa.Function{}, AddrTaken: map[*ssa.Function][]CallSite{}, DynSites: map[string][]CallSite{}}
 	for _, fn := range p.AllFuncs {
+		if forwardOf(fn) != nil {
+			continue
+		}
 		for _, b := range fn.Blocks {
 			for _, in := range b.Instrs {
 				if ci, ok := in.(ssa.CallInstruction); ok {
@@ -501,8 +537,14 @@ func unwrapSynthetic(fn *ssa.Function) *ssa.Function {
 
 // Instrs iterates over all instructions of fn in block order.
 func Instrs(fn *ssa.Function, f func(in ssa.Instruction)) {
+	fwd := forwardOf(fn) != nil
 	for _, b := range fn.Blocks {
 		for _, in := range b.Instrs {
+			if fwd {
+				if _, isCall := in.(ssa.CallInstruction); isCall {
+					continue // looked through at the wrapper's call sites
+				}
+			}
 			f(in)
 		}
 	}
@@ -511,6 +553,9 @@ func Instrs(fn *ssa.Function, f func(in ssa.Instruction)) {
 // CallsIn returns the call instructions (call/go/defer) in fn, in source-ish (block) order.
 func CallsIn(fn *ssa.Function) []ssa.CallInstruction {
 	var out []ssa.CallInstruction
+	if forwardOf(fn) != nil {
+		return nil // a forwarding wrapper is looked through at its call sites; its own call is not a site
+	}
 	Instrs(fn, func(in ssa.Instruction) {
 		if ci, ok := in.(ssa.CallInstruction); ok {
 			out = append(out, ci)
